@@ -9,6 +9,7 @@ require (
 	github.com/anishathalye/porcupine v1.3.0
 	github.com/c2h5oh/datasize v0.0.0-20231215233829-aa82cc1e6500
 	github.com/miekg/dns v1.1.62
+	github.com/oschwald/maxminddb-golang v1.13.1
 	github.com/quic-go/quic-go v0.48.2
 	golang.org/x/crypto v0.30.0
 	golang.org/x/net v0.32.0
@@ -29,7 +30,6 @@ require (
 	github.com/getsentry/sentry-go v0.29.1 // indirect
 	github.com/google/renameio/v2 v2.0.0 // indirect
 	github.com/munnerz/goautoneg v0.0.0-20191010083416-a7dc8b61c822 // indirect
-	github.com/oschwald/maxminddb-golang v1.13.1 // indirect
 	github.com/panjf2000/ants/v2 v2.10.0 // indirect
 	github.com/patrickmn/go-cache v2.1.1-0.20191004192108-46f407853014+incompatible // indirect
 	github.com/pmezard/go-difflib v1.0.0 // indirect
